@@ -427,7 +427,8 @@ Definition dec_round (d : dec) (r : Z) : out dec :=
       else
         let c' := round_half_even c (Z.to_N (10 ^ (target - e))) in
         Ok (DFin s c' target)
-  | _ => Raise (other_err XArith)
+  | DNan => Ok DNan
+  | DInf _ => Raise (other_err XArith)
   end.
 
 Definition py_round (v r : pyval) : out pyval :=
